@@ -3,8 +3,47 @@
 (* whose last operation is a verification is one vector, namely its history    *)
 (* (operations with the expected verification results).  The history variable  *)
 (* makes states = behaviours.                                                  *)
+(* Two runs:                                                                   *)
+(*   Gen_KeyLife17.cfg      every behaviour of at most MaxOps operations, no   *)
+(*                          relays (Layouts = {})                              *)
+(*   Gen_KeyLife17_lay.cfg  the round trips through a store, x EVERY layout of *)
+(*                          Dnssec17!KFLayouts x both import functions: the     *)
+(*                          behaviours of the shapes below (NEXT ShapedNext),  *)
+(*                          and every way of KeyLife17!Apis a text reaches the *)
+(*                          library (the three extra reader kinds: x the       *)
+(*                          layouts without empty lines; Rich: x all).         *)
+(*                          A relay operation is exported with the TEMPLATES   *)
+(*                          of its layout (Dnssec17!KFTemplate), so the text    *)
+(*                          the real code reads is the specification's.        *)
 EXTENDS KeyLife17, GenBase
 
+CONSTANTS Rich,      \* FALSE: the 48 layouts of the quick tier; TRUE: + several empty lines at once
+          Shapes     \* which of the shapes below
+
+D == INSTANCE Dnssec17 WITH MaxLabel <- 63, MaxName <- 255
+GenLayouts == D!KFLayouts(Rich)
+
+Shape(s) == CASE s = "given" -> <<"provide", "relay", "import", "sign", "verify">>                    \* a key from elsewhere, stored, read
+              [] s = "round" -> <<"gen", "export", "relay", "import", "sign", "verify">>              \* our own key, exported, stored, read
+              [] s = "other" -> <<"provide", "provide", "relay", "import", "sign", "verify">>         \* ... and the other key must not verify
+              [] s = "twice" -> <<"provide", "relay", "relay", "import", "sign", "verify">>           \* a copy of a copy
+\* the text read is the copy, the signing handle is the one read from it, a second relay copies the first copy
+\* (which is in the plainest layout without a final newline: the product of two layouts is not needed)
+FirstOfTwo == [fmt |-> "v1.3", timing |-> FALSE, mnem |-> TRUE, blank |-> "none", finalnl |-> FALSE]
+Shaped ==
+  /\ \E s \in Shapes : Len(hist) <= Len(Shape(s)) /\ \A n \in 1..Len(hist) : hist[n].op = Shape(s)[n]
+  /\ \A n \in 1..Len(hist) :
+       /\ hist[n].op = "import" => /\ hist[n].t = Len(ts)
+                                   /\ (hist[n].api \notin {"new", "read"} /\ ~Rich) => hist[n - 1].lay.blank = "none"
+       /\ hist[n].op = "sign"   => hist[n].h = Len(hs)
+       /\ (hist[n].op = "relay" /\ n > 1 /\ hist[n - 1].op = "relay") => hist[n].t = Len(ts) - 1 /\ hist[n - 1].lay = FirstOfTwo
+ShapedNext == /\ \/ Next
+                 \/ Len(hist) < MaxOps /\ \E j \in 1..Len(ts), api \in Apis : Import(j, api)
+              /\ Shaped'
+
+OpOut(o) == IF o.op = "relay"
+            THEN [op |-> "relay", t |-> o.t, lay |-> o.lay, rsa |-> D!KFTemplate("rsa", o.lay), ec |-> D!KFTemplate("ec", o.lay)]
+            ELSE o
 Out == IF Len(hist) > 0 /\ hist[Len(hist)].op = "verify"
-       THEN Emit([kind |-> "keylife", ops |-> hist]) ELSE TRUE
+       THEN Emit([kind |-> "keylife", ops |-> [n \in 1..Len(hist) |-> OpOut(hist[n])]]) ELSE TRUE
 =============================================================================
